@@ -568,3 +568,7 @@ MUTANTS += [
  {"id": "c07-compare-keeps-annihilating-sub", "prop": "C07", "file": _SI, "old": "            if sub_other_term is S.Zero and other_term.sympy is not S.Zero:\n                continue\n", "new": ""},
  {"id": "c07-compare-accepts-sums", "prop": "C07", "file": _SI, "old": "            if not isinstance(term.sympy - sub_other_term, Add):\n                return sub", "new": "            if isinstance(term.sympy - sub_other_term, Add):\n                return sub"},
 ]
+MUTANTS += [
+ {"id": "c15-eri-block-table-misses-abba", "prop": "C15", "file": _EC, "old": "                return (\"aaaa\", \"abab\", \"abba\", \"baab\", \"baba\", \"bbbb\")", "new": "                return (\"aaaa\", \"abab\", \"baba\", \"bbbb\")"},
+ {"id": "c15-amplitude-blocks-upper-equals-lower", "prop": "C15", "file": _EC, "old": "                     if block[:n].count(\"a\") == block[n:].count(\"a\")]", "new": "                     if block[:n] == block[n:]]"},
+]
